@@ -100,3 +100,55 @@ pub fn enumerate(req: &Req) -> R<String> {
 		}
 	}
 }
+
+/// A generator that hands out a fixed short list of words and counts how many were taken (no allocation, no unwinding: for the
+/// exhaustive loops below). Runs dry into all-ones words (counted).
+struct Few {
+	w: [u64; 4],
+	i: usize,
+}
+impl urandom::Rng for Few {
+	fn next_u32(&mut self) -> u32 {
+		self.next_u64() as u32
+	}
+	fn next_u64(&mut self) -> u64 {
+		let v = if self.i < 4 { self.w[self.i] } else { !0 };
+		self.i += 1;
+		v
+	}
+	fn fill_bytes(&mut self, buf: &mut [std::mem::MaybeUninit<u8>]) {
+		for b in buf.iter_mut() {
+			b.write(self.next_u64() as u8);
+		}
+	}
+	fn jump(&mut self) {}
+}
+
+/// `enum32 kind=alnum lo=<a> hi=<b> second=<w>`: the Alnum sample for EVERY first 32-bit word in `[lo, hi)` followed by the word `second`
+/// (and then zeros): how often each (character, words consumed) pair occurs. Exhaustive counting, implementation only.
+pub fn enum32(req: &Req) -> R<String> {
+	use urandom::distr::Alnum;
+	use urandom::Distribution;
+	let lo = req.u64("lo")?;
+	let hi = req.u64("hi")?;
+	let second = req.u64("second")?;
+	if req.get("kind")? != "alnum" || hi > 1 << 32 || lo > hi {
+		return Err(Bad);
+	}
+	let mut counts = vec![0u64; 256 * 5];
+	for w in lo..hi {
+		let mut few = Few { w: [w, second, 0, 0], i: 0 };
+		// `Random<R>` is `#[repr(transparent)]` over `R` (its constructor is crate-private)
+		let r: &mut urandom::Random<Few> = unsafe { &mut *(&mut few as *mut Few as *mut urandom::Random<Few>) };
+		let c: char = Alnum.sample(r);
+		let used = usize::min(few.i, 4);
+		counts[(c as usize & 255) * 5 + used] += 1;
+	}
+	let mut parts = Vec::new();
+	for (k, &n) in counts.iter().enumerate() {
+		if n > 0 {
+			parts.push(format!("{}:{}={}", k / 5, k % 5, n));
+		}
+	}
+	Ok(parts.join(";"))
+}
